@@ -45,6 +45,18 @@ func newTextprotoReader(r *bufio.Reader, ds dump.Dumpers) *textprotoReader {
 	if ds.ShouldDump() {
 		t.readLine = func() (line []byte, isPrefix bool, err error) {
 			line, err = t.R.ReadSlice('\n')
+			if err == bufio.ErrBufferFull {
+				// The line does not fit into the buffer: report a prefix exactly
+				// like bufio.Reader.ReadLine does, so that readLineSlice keeps
+				// accumulating. If "\r\n" straddles the buffer, put the '\r'
+				// back and let the next call see it.
+				if len(line) > 0 && line[len(line)-1] == '\r' {
+					t.R.UnreadByte()
+					line = line[:len(line)-1]
+				}
+				ds.DumpResponseHeader(line)
+				return line, true, nil
+			}
 			if len(line) == 0 {
 				if err != nil {
 					line = nil
